@@ -106,7 +106,17 @@ def gen_scenario(rng, features):
             args.append({"field": fname, "access": acc, "space": aspace,
                          "stencil": stencil})
         has_scalar = rng.random() < 0.3
-        kernels.append({"name": kname, "args": args, "scalar": has_scalar})
+        kern = {"name": kname, "args": args, "scalar": has_scalar}
+        if "operator" in features and rng.random() < 0.3:
+            # an LMA operator argument (C23 only: the simulator does not
+            # execute operators); a written operator becomes the kernel's
+            # iteration-space argument
+            sp = pick(rng, ["w3", "w3", "w0", "w2"])
+            kern["ops"] = [{"name": f"op{len(kernels) + 1}",
+                            "access": pick(rng, ["gh_write", "gh_write",
+                                                 "gh_readwrite", "gh_read"]),
+                            "to": sp, "from": pick(rng, [sp, "w3"])}]
+        kernels.append(kern)
         calls.append({"kern": kname})
     return {"fields": fields, "kernels": kernels, "calls": calls,
             "annexed": rng.random() < 0.5}
@@ -124,12 +134,16 @@ def kernel_text(kern):
             ent += f", stencil({a['stencil']['type']})"
         ent += ")"
         entries.append(ent)
+    for op in kern.get("ops", []):
+        entries.append(f"arg_type(gh_operator, gh_real, {op['access']}, "
+                       f"{op['to']}, {op['from']})")
+        nmeta += 1
     name = kern["name"]
     lines += [f"module {name}_mod", "  use argument_mod",
               "  use fs_continuity_mod", "  use kernel_mod",
               "  use constants_mod", "  implicit none",
               f"  type, extends(kernel_type) :: {name}_type",
-              f"     type(arg_type), dimension({nmeta}) :: meta_args = (/ &"]
+              f"     type(arg_type), dimension({len(entries)}) :: meta_args = (/ &"]
     for i, ent in enumerate(entries):
         lines.append("          " + ent + (", &" if i + 1 < len(entries)
                                            else " /)"))
@@ -170,8 +184,18 @@ def alg_text(scn):
                 args.append(a["field"])
                 if a["stencil"]:
                     args.append(str(a["stencil"]["extent"]))
+            for op in kern.get("ops", []):
+                args.append(op["name"])
             calls.append(f"{kern['name']}_type({', '.join(args)})")
     body = ", &\n                 ".join(calls)
+    opnames = sorted({op["name"] for k in scn["kernels"]
+                      for op in k.get("ops", [])})
+    opdecl = ""
+    if opnames:
+        opdecl = ("    type(operator_type), intent(inout) :: " +
+                  ", ".join(opnames) + "\n")
+        fields = fields + opnames
+        uses = "  use operator_mod, only: operator_type\n" + uses
     return f"""module alg_mod
   use field_mod, only: field_type
   use constants_mod, only: r_def, i_def
@@ -179,8 +203,8 @@ def alg_text(scn):
   implicit none
 contains
   subroutine alg({', '.join(fields)})
-    type(field_type), intent(inout) :: {', '.join(fields)}
-    real(r_def) :: a
+    type(field_type), intent(inout) :: {', '.join(sorted(scn["fields"]))}
+{opdecl}    real(r_def) :: a
     integer(i_def) :: ext
     call invoke( {body}, &
                  name="inv1" )
